@@ -58,6 +58,7 @@ class BaseSection(base.Sectionable):
     _link = None
     _include = None
     _merged = None
+    _merged_attributes = ()
 
     _format = fmt.Section
 
@@ -736,10 +737,15 @@ class BaseSection(base.Sectionable):
         self.merge_check(section, strict)
         self._merge_name_check(section)
 
+        # Remember which attributes are taken over so that unmerge can remove them again.
+        merged_attributes = []
         if self.definition is None and section.definition is not None:
             self.definition = section.definition
+            merged_attributes.append("definition")
         if self.reference is None and section.reference is not None:
             self.reference = section.reference
+            merged_attributes.append("reference")
+        self._merged_attributes = tuple(merged_attributes)
 
         for obj in section:
             mine = self.contains(obj)
@@ -775,6 +781,12 @@ class BaseSection(base.Sectionable):
                 mine.unmerge(obj)
         for obj in removals:
             self.remove(obj)
+
+        # Attributes that were taken over from the merged section are removed as well.
+        for attr in self._merged_attributes:
+            if getattr(self, attr) == getattr(section, attr):
+                setattr(self, attr, None)
+        self._merged_attributes = ()
 
         # The path may not be valid anymore, so make sure to update it.
         # However this does not reflect changes happening while the section
